@@ -1020,19 +1020,19 @@ impl Entry {
             )
         };
 
+        // the entry with the new children (replace_with would rebuild the whole tree around it)
         let new_root = SyntaxNode::new_root_mut(
-            self.0.replace_with(
-                self.0
-                    .green()
-                    .splice_children(position..position, new_children),
-            ),
+            self.0
+                .green()
+                .splice_children(position..position, new_children),
         );
 
         if let Some(parent) = self.0.parent() {
-            parent.splice_children(self.0.index()..self.0.index() + 1, vec![new_root.into()]);
+            let index = self.0.index();
+            parent.splice_children(index..index + 1, vec![new_root.into()]);
             self.0 = parent
                 .children_with_tokens()
-                .nth(self.0.index())
+                .nth(index)
                 .unwrap()
                 .clone()
                 .into_node()
@@ -1410,11 +1410,11 @@ impl Relation {
                     self.0.green().splice_children(idx..idx, new_children),
                 );
                 if let Some(parent) = self.0.parent() {
-                    parent
-                        .splice_children(self.0.index()..self.0.index() + 1, vec![new_root.into()]);
+                    let index = self.0.index();
+                    parent.splice_children(index..index + 1, vec![new_root.into()]);
                     self.0 = parent
                         .children_with_tokens()
-                        .nth(self.0.index())
+                        .nth(index)
                         .unwrap()
                         .clone()
                         .into_node()
@@ -1623,10 +1623,11 @@ impl Relation {
                 ],
             ));
             if let Some(parent) = self.0.parent() {
-                parent.splice_children(self.0.index()..self.0.index() + 1, vec![new_root.into()]);
+                let index = self.0.index();
+                parent.splice_children(index..index + 1, vec![new_root.into()]);
                 self.0 = parent
                     .children_with_tokens()
-                    .nth(self.0.index())
+                    .nth(index)
                     .unwrap()
                     .clone()
                     .into_node()
@@ -1685,10 +1686,11 @@ impl Relation {
                 ],
             ));
             if let Some(parent) = self.0.parent() {
-                parent.splice_children(self.0.index()..self.0.index() + 1, vec![new_root.into()]);
+                let index = self.0.index();
+                parent.splice_children(index..index + 1, vec![new_root.into()]);
                 self.0 = parent
                     .children_with_tokens()
-                    .nth(self.0.index())
+                    .nth(index)
                     .unwrap()
                     .clone()
                     .into_node()
